@@ -835,6 +835,16 @@ Extra:\n{self.extra_map}
                         "You may be able to get this wallet to cosign a sweep transaction (1-output) instead."
                     )
 
+                # Each cosigner must contribute exactly one key to a change output
+                output_xfps = {
+                    named_pub.root_fingerprint.hex()
+                    for named_pub in psbt_out.named_pubs.values()
+                }
+                if len(output_xfps) != len(psbt_out.named_pubs):
+                    raise SuspiciousTransaction(
+                        f"Output #{cnt} has more than one key from the same root fingerprint, cannot confirm it as change."
+                    )
+
                 bip32_derivs = []
                 for named_pub in psbt_out.named_pubs.values():
                     # Match to corresponding xpub to validate that this xpub is a participant in this change output
